@@ -58,3 +58,8 @@ impl<T> VxUnwrap<T> for Option<T> {
     #[verifier::external_body]
     fn vx_unwrap(self) -> (r: T) ensures self is Some, r == self->Some_0 { self.unwrap() }
 }
+// Result::unwrap where a panic with the error's message is a permitted outcome: if the call returns, the result was Ok
+impl<T, E> VxUnwrap<T> for Result<T, E> {
+    #[verifier::external_body]
+    fn vx_unwrap(self) -> (r: T) ensures self is Ok, r == self->Ok_0 { unimplemented!() }
+}
